@@ -498,7 +498,10 @@ class Grid:
                 )
                 metric_vars = self.interp_like(mv, array, "extend", None)
         else:
-            for axis_combinations in iterate_axis_combinations(axes):
+            # enumerate in the order of the grid's axes, so that the choice among alternative
+            # products depends neither on the order the axes were asked for nor on the hash seed
+            ordered_axes = [ax for ax in self.axes if ax in axes]
+            for axis_combinations in iterate_axis_combinations(ordered_axes):
                 try:
                     # will raise KeyError if the axis combination is not in metrics
                     possible_metric_vars = [
